@@ -622,6 +622,7 @@ pub fn case(seed: u64, st: &mut Stats) {
     if rng.chance(1, 3) {
         let mut o2 = ConvOpts::full();
         o2.extended = true;
+        o2.hyphen_pos = true;
         let spec2 = conv_cmd(&mut rng, &o2);
         if let Ok(cmd2) = gate(&spec2) {
             for _ in 0..3 {
